@@ -204,34 +204,57 @@ Definition tbl_std (table : list sx) (nid : nat) (key : list kpart) : option sva
   | Some row => Some (SData (100 + sx_nat (sx_nth 2 row)))
   | None => None
   end.
-(* user code: callable data 100+c returns the tuple (c, (args), (kwargs as 2-tuples)) and logs one event;
-   callable data d < 100 with d odd raises XUser d; anything else is not callable (XType) *)
+(* user code, mirrored by the harness's Python objects (vlib/rewrite_rt.py):
+   data 100+c = leaf method c of the overloaded function: returns the tuple (c, (args), ((kwid, value)... by kwid)) and logs one event;
+   data d with 1 <= d < 100 = a callable user object: even d returns (itself, args...), odd d raises; both log;
+   data 0 is what a function looks like to user code: never called through this oracle *)
+Fixpoint ins_kw (kv : nat * sval) (l : list (nat * sval)) : list (nat * sval) :=
+  match l with [] => [kv] | x :: r => if Nat.leb (fst kv) (fst x) then kv :: l else x :: ins_kw kv r end.
+Definition sort_kw (l : list (nat * sval)) : list (nat * sval) := fold_right ins_kw [] l.
 Definition callv_std (c : sval) (ar : list sval) (kw : list (nat * sval)) (w : nat) : outcome sval * nat * list event :=
   match c with
+  | SData 0 => (Raise XType, w, [])
   | SData d =>
       if Nat.leb 100 d
-      then (Val (SSeq 1 [SInt (Z.of_nat (d - 100)); SSeq 1 ar; SSeq 1 (map (fun kv => SSeq 1 [SStr (fst kv); snd kv]) kw)]),
+      then (Val (SSeq 1 [SInt (Z.of_nat (d - 100)); SSeq 1 ar; SSeq 1 (map (fun kv => SSeq 1 [SInt (Z.of_nat (fst kv)); snd kv]) (sort_kw kw))]),
             S w, [(1000 + d, SSeq 1 ar)])
       else if Nat.odd d then (Raise (XUser (SData d)), S w, [(1000 + d, SSeq 1 ar)])
       else (Val (SSeq 1 (SData d :: ar)), S w, [(1000 + d, SSeq 1 ar)])
   | _ => (Raise XType, w, [])
   end.
+Fixpoint repeat_list (n : nat) (l : list sval) : list sval := match n with 0 => [] | S m => l ++ repeat_list m l end.
+(* Python's + and * on ints, lists and tuples *)
 Definition binop_std (op : nat) (a b : sval) : outcome sval :=
-  match a, b with
-  | SInt x, SInt y => Val (SInt (if Nat.eqb op 0 then x + y else x * y))
-  | _, _ => Raise XType
+  match op, a, b with
+  | 0, SInt x, SInt y => Val (SInt (x + y))
+  | 0, SSeq 0 l, SSeq 0 m => Val (SSeq 0 (l ++ m))
+  | 0, SSeq 1 l, SSeq 1 m => Val (SSeq 1 (l ++ m))
+  | 1, SInt x, SInt y => Val (SInt (x * y))
+  | 1, SSeq 0 l, SInt n | 1, SInt n, SSeq 0 l => Val (SSeq 0 (repeat_list (Z.to_nat n) l))
+  | 1, SSeq 1 l, SInt n | 1, SInt n, SSeq 1 l => Val (SSeq 1 (repeat_list (Z.to_nat n) l))
+  | _, _, _ => Raise XType
   end.
 Definition getattr_std (a : sval) (n : nat) : outcome sval :=
-  match a with SData d => Val (SSeq 1 [SData d; SStr n]) | _ => Raise (XUser (SStr n)) end.
+  match a with
+  | SData 0 => Raise (XUser (SInt (Z.of_nat n)))
+  | SData d => Val (SSeq 1 [SData d; SInt (Z.of_nat n)])
+  | _ => Raise (XUser (SInt (Z.of_nat n)))
+  end.
 Definition getitem_std (a i : sval) : outcome sval :=
-  match a, i with SSeq _ l, SInt z => match nth_error l (Z.to_nat z) with Some v => Val v | None => Raise (XUser SNone) end
-  | _, _ => Raise XType end.
+  match a, i with
+  | SSeq 0 l, SInt z | SSeq 1 l, SInt z =>
+      if Z.ltb z 0 then Raise (XUser SNone)
+      else match nth_error l (Z.to_nat z) with Some v => Val v | None => Raise (XUser SNone) end
+  | SSeq 0 _, _ | SSeq 1 _, _ => Raise XType
+  | SSeq _ _, _ => Raise (XUser SNone)
+  | _, _ => Raise XType
+  end.
 Definition truthy_std (a : sval) : bool :=
   match a with
   | SInt z => negb (Z.eqb z 0) | SStr _ => true | SNone => false | SBool b => b | STy _ => true | SData _ => true
   | SSeq _ l => match l with [] => false | _ => true end
   end.
-Definition fmt_std (l : list sval) : sval := SSeq 1 (SStr 0 :: l).
+Definition fmt_std (l : list sval) : sval := SStr 0.
 
 Definition glob_of (g : list sx) (i : nat) : option sval :=
   match find (fun row => Nat.eqb (sx_nat (sx_nth 0 row)) i) g with
